@@ -226,7 +226,15 @@ func (w *World) Project(tr *Track) (res J) {
 	res["str"] = w.projStr(ctx)
 	res["vest"] = w.projVest(ctx)
 	if !w.InBlock {
-		res["q"] = w.projSupplyQueries(ctx)
+		// a panicking query server is an observation (C17), not a harness failure
+		func() {
+			defer func() {
+				if r := recover(); r != nil {
+					res["qpanic"] = true
+				}
+			}()
+			res["q"] = w.projSupplyQueries(ctx)
+		}()
 	}
 	_ = gctx
 	return res
